@@ -496,6 +496,10 @@ func (x *metaAttributeSeeker) Get(id []byte, attr string) (attributeValue []byte
 }
 
 func collectChildren(cnrMetaCrs *bbolt.Cursor, cnr cid.ID, parentID oid.ID) ([]oid.ID, error) {
+	return collectChildrenNested(cnrMetaCrs, cnr, parentID, 0)
+}
+
+func collectChildrenNested(cnrMetaCrs *bbolt.Cursor, cnr cid.ID, parentID oid.ID, nestingLevel int) ([]oid.ID, error) {
 	var (
 		errECParts iec.ErrParts
 		siErr      *object.SplitInfoError
@@ -535,7 +539,12 @@ func collectChildren(cnrMetaCrs *bbolt.Cursor, cnr cid.ID, parentID oid.ID) ([]o
 			}
 		}
 		for _, id := range res {
-			grandchildren, err := collectChildren(cnrMetaCrs, cnr, id)
+			// headers are not trusted: a child may refer to itself or to its
+			// parent as the first part, do not follow such references forever
+			if id == parentID || nestingLevel >= maxObjectNestingLevel {
+				continue
+			}
+			grandchildren, err := collectChildrenNested(cnrMetaCrs, cnr, id, nestingLevel+1)
 			if err != nil {
 				return nil, err
 			}
